@@ -8,6 +8,7 @@ import (
 	"database/sql"
 	"strings"
 	"sync"
+	"sync/atomic"
 	"testing"
 	"time"
 
@@ -574,4 +575,47 @@ func TestFindingF25WriteWhileFeedStartsIsDelivered(t *testing.T) {
 	}
 	require.True(t, seen["before"], "backfill must deliver the document written before the feed started")
 	require.True(t, seen["during"], "a write that commits while the feed is starting must be delivered by backfill or live")
+}
+
+// K2 [C08] Writers commit in CAS order while they hold the bucket mutex, but each posts its event after releasing it, so
+// a later write can post first and a feed receives CAS values out of order. The first writer is held between its commit
+// and its post through the logging callback ("DCP: ..." is logged right there) while a second writer runs to completion.
+func TestFindingK2EventsPostedOutOfCasOrder(t *testing.T) {
+	_, c := findingBucket(t)
+	events := findingFeed(t, c)
+
+	oldCallback, oldLevel := LoggingCallback, GetLogLevel()
+	defer func() { LoggingCallback = oldCallback; SetLogLevel(oldLevel) }()
+	var first atomic.Bool
+	LoggingCallback = func(level LogLevel, f string, args ...any) {
+		if strings.HasPrefix(f, "DCP: ") && first.CompareAndSwap(false, true) {
+			func() {
+				// the first writer has committed and is about to post: let a second writer go all the way
+				done := make(chan struct{})
+				go func() {
+					defer close(done)
+					_, _ = c.AddRaw("second", 0, []byte(`{"v":2}`))
+				}()
+				select {
+				case <-done:
+				case <-time.After(500 * time.Millisecond): // a writer that must wait for the first one's post is fine too
+				}
+			}()
+		}
+	}
+	SetLogLevel(LevelInfo)
+	_, err := c.AddRaw("first", 0, []byte(`{"v":1}`))
+	require.NoError(t, err)
+	SetLogLevel(oldLevel)
+	LoggingCallback = oldCallback
+
+	var cas []uint64
+	var keys []string
+	for len(cas) < 2 {
+		e := findingNext(t, events)
+		require.NotNil(t, e, "feed stalled after %v", keys)
+		cas = append(cas, e.Cas)
+		keys = append(keys, string(e.Key))
+	}
+	require.Less(t, cas[0], cas[1], "events reached the feed out of CAS order: %v", keys)
 }
